@@ -51,7 +51,7 @@ def build(ctx):
             for fn, wm in (("visitc_%s" % g.M, False), ("visit_%s" % g.M, True), ("visitcc_%s" % g.M, False)):
                 if ctx.quick and fn.startswith("visit_") : continue
                 hs.append(P.Harness("%s_%s_%s_cxx%s" % (sch.ns, fn, mode, std), harness(u, g, lines, capn + 1, N, E, D, fn, wm), [u], unwind=G + 2,
-                                    cap=ctx.q(300, 900), backends=["minisat", "kissat"], extra_flags=["--no-standard-checks"],
+                                    cap=ctx.q(600, 1200), backends=["minisat", "kissat"], extra_flags=["--no-standard-checks"],
                                     meta={"big_loops": ["ref_walk_%s.%d" % (msg.name, x) for x in range(16)]},
                                     desc="%s.%s: %s with a recording visitor: event log == model event sequence (schema order, own tags, accessor values/views, composite children), stop at every k, final cursor" % (sch.ns, msg.name, fn),
                                     bounds={"N": N, "G": g.G, "D": D, "E": E, "events": capn, "std": "c++" + std, "build": mode}))
@@ -82,7 +82,7 @@ def build(ctx):
   for (unsigned i = 0; i < N; i++) VASSERT(buf[i] == old[i], "visiting never writes");
 """ % {"obl": g.hdr["blockLength"][0]}
         if not sch.be:
-            hs.append(P.Harness("%s_visit_many_entries_cxx%s" % (sch.ns, std), hgen.harness([u], body), [u], unwind=260, cap=ctx.q(300, 900), extra_flags=["--no-standard-checks"], backends=["kissat", "minisat", "z3"],
+            hs.append(P.Harness("%s_visit_many_entries_cxx%s" % (sch.ns, std), hgen.harness([u], body), [u], unwind=260, cap=ctx.q(600, 1200), extra_flags=["--no-standard-checks"], backends=["kissat", "minisat", "z3"],
                                 desc="%s.odd: visit_children over a group with ANY uint8 numInGroup (0..255) of zero-length entries: callback count, stop at k, final cursor" % sch.ns,
                                 bounds={"numInGroup": "0..255 (whole type range)", "blockLength": 0, "std": "c++" + std}))
     # ---- get_by_tag / set_by_tag behave exactly like the named accessors (same reference obligations as C02/C01)
@@ -106,7 +106,7 @@ def build(ctx):
                     for k, chunk in enumerate(groups):
                         nm = chunk[0][0] if dynamic else str(k)
                         hs.append(P.Harness("%s_bytag_%s_%s_%s_%s_cxx%s" % (sch.ns, msg.name, lv.name, kind, nm, std), mk(ub, g, chunk, N, 0, D), [ub], unwind=G + 2,
-                                            cap=ctx.q(300, 900), backends=["minisat", "kissat"], extra_flags=["--no-standard-checks"],
+                                            cap=ctx.q(600, 1200), backends=["minisat", "kissat"], extra_flags=["--no-standard-checks"],
                                             meta={"big_loops": ["ref_walk_%s.%d" % (msg.name, x) for x in range(16)]},
                                             desc="%s.%s level %s: %s_by_tag<field tag> behaves exactly like the named accessor (reference value / reference bytes + frame) for %s" % (sch.ns, msg.name, lv.name, kind, [a[0] for a in chunk]),
                                             bounds={"N": N, "G": G, "D": D, "std": "c++" + std}))
